@@ -45,6 +45,10 @@ func (g *gateImpl) SetCount(count uint16) error {
 		return ErrGateIntegrity
 	}
 	g.count = count
+	if g.arrived == g.count {
+		// lowering the count to the arrivals already made opens the gate
+		g.gateCondition.Broadcast()
+	}
 	return nil
 }
 
